@@ -135,6 +135,8 @@ def run_plane(case, agg):
             via_main = seed_slice(case["i"] * 7 + j, 97)
             try:
                 if via_main:
+                    from .. import impl
+                    impl.prefill(out)
                     f1, f2 = os.path.join(d, "p1.bin"), os.path.join(d, "p2.bin")
                     open(f1, "wb").write(p1)
                     open(f2, "wb").write(p2)
@@ -281,6 +283,7 @@ POOL = [
     (64, [("cache://x/y.bin", 70000)]),     # payload above 64 KiB
     (1, [("i", 2), ("j", 0)]),
     (16, [("f", 2), ("k", 4)]),             # shares URI "f" with pool[2]
+    (8, [("A", 3), ("a ", 4), (" a", 1), ("file://A.BIN", 9)]),     # differ from other URIs only in case / surrounding blanks: all distinct
 ]
 MERGE_EB = [4, 16, 64]
 
@@ -483,7 +486,7 @@ def plan(tier):
         BfsStage("sequences", seq_init, seq_step, max_depth=depth,
                  rule="add-slot histories; alphabet 5 residues x {new, duplicate URI}; eb in {4,16,64}"),
         CaseStage("merge", lambda: merge_cases(tier), run_merge,
-                  rule="ordered 1-3 tuples of an 8-cache pool x eb' in {4,16,64}, plus merges of merged caches"),
+                  rule="ordered 1-3 tuples of a 9-cache pool x eb' in {4,16,64}, plus merges of merged caches"),
         CaseStage("cli", lambda: cli_cases(tier), run_cli, rule="real CLI: three sub-commands x --eb-size {default, 1, 8, 64, 4096}"),
         CaseStage("from_envelope", lambda: env_cases(tier), run_env,
                   rule="synthetic envelopes x eb x payload names x lengths through cmd main from_envelope"),
